@@ -46,7 +46,7 @@ func Dump(w io.Writer, r io.Reader) (err error) {
 func makeNumReader(r io.Reader) func() uint32 {
 	buf := make([]byte, 4)
 	return func() uint32 {
-		if _, err := r.Read(buf); err != nil {
+		if _, err := io.ReadFull(r, buf); err != nil {
 			panic(err)
 		}
 		return binary.LittleEndian.Uint32(buf)
